@@ -5,7 +5,7 @@ from hypothesis import strategies as st
 
 from conda_content_trust import authentication as A
 
-from vlib import gen_deleg, gen_json as G, ref_schema, ref_verify as RV, related
+from vlib import cfgunit, configrun, gen_deleg, gen_json as G, ref_schema, ref_verify as RV, related
 from vlib.runner import Unit, Violation
 
 PROPERTY = "C05"
@@ -96,7 +96,23 @@ def check_case(case):
             "count": {"history_probes": probes}}
 
 
+@st.composite
+def _config_cases(draw):
+    calls = []
+    for _ in range(draw(st.integers(3, 5))):
+        c = draw(gen_deleg.delegation_cases())
+        calls.append(["verify_delegation", c["role"], c["U"], c["T"], c["gpg"]])
+    return {"calls": calls, "config": draw(configrun.configs)}
+
+
+def check_config(case):
+    verdicts, labels, count = cfgunit.config_probe(case["calls"], "iff", case["config"])
+    return {"nontrivial": len(set(verdicts)) > 1, "labels": labels, "count": count}
+
+
 UNITS = [
+    Unit("config", check_config, strategy=_config_cases, quick=24, thorough=400, shards_quick=8, shrink=False,
+         doc="the delegation rule holds in fresh interpreters under drawn configurations (logging level, -O, warnings, stdout) and discovered environment variables"),
     Unit("delegation", check_case, essential_min=0.01, strategy=gen_deleg.delegation_cases, quick=1500, thorough=60000,
          essential=["other-role-satisfied", "role-only-in-untrusted", "observed=UnknownRoleError",
                     "observed=MetadataVerificationError", "observed=accept", "observed=SignatureError"],
